@@ -36,7 +36,8 @@ RULE = ('a crash point is (system call name, n): the n-th call of that name that
         'before the first checkpoint completed), the survivor\'s side log must match the census (determinism), and a '
         'new process resumed from the leftover file must finish under the C01/C02 hooks. thorough = ALL crash points '
         'of each configuration (exhaustive per run); quick = a stratified sample (every call name, first/last call of '
-        'checkpoint writes, uniform rest). Non-trivial = distinct crash points whose kill landed strictly inside a '
+        'checkpoint writes, uniform rest). Besides plain paths the checkpoint is also given as a relative symbolic link '
+        'into another directory and (thorough) inside a directory that does not exist yet. Non-trivial = distinct crash points whose kill landed strictly inside a '
         'checkpoint write (BEGIN logged, END not).')
 ASSUMPTIONS = ['process death only (SIGKILL, page cache survives); power loss / kernel crash is out of reach',
                'strace injects the signal on entry of the n-th matching call, i.e. the state after call n-1',
@@ -55,8 +56,28 @@ def _configs(tier):
         c = workloads.gen_cfg(rng, p, pool='none', n_batch=50, networks=[0, 1, 0][j], filepath=True)
         c.update(n_live=60, n_eff=[150, 120, 150][j], f_live=0.2, n_shell=1, discard_exploration=bool(j == 2),
                  n_update=None, n_like_new_bound=None)
-        out.append({'prob': p, 'cfg': c, 'cap': 4000})
+        out.append({'prob': p, 'cfg': c, 'cap': 4000, 'layout': 'plain'})
+    # the same first configuration with the checkpoint path being a (dangling, relative) symbolic link into
+    # another directory, and in a directory that does not exist yet
+    out.append(dict(out[0], layout='symlink'))
+    if tier != 'quick':
+        out.append(dict(out[0], layout='nested'))
     return out
+
+
+def _layout(d, layout):
+    """Checkpoint path inside run directory d for a layout, and every path strace has to watch."""
+    if layout == 'symlink':
+        os.makedirs(os.path.join(d, 'store'))
+        ck = os.path.join(d, 'ck.hdf5')
+        os.symlink(os.path.join('store', 'real.hdf5'), ck)
+        real = os.path.join(d, 'store', 'real.hdf5')
+        return ck, [ck, ck + '.tmp', real, real + '.tmp']
+    if layout == 'nested':
+        ck = os.path.join(d, 'a', 'b', 'ck.hdf5')
+        return ck, [ck, ck + '.tmp']
+    ck = os.path.join(d, 'ck.hdf5')
+    return ck, [ck, ck + '.tmp']
 
 
 def gen_cases(tier, seed):
@@ -67,8 +88,8 @@ def gen_cases(tier, seed):
     return cases
 
 
-def _strace(args, spec_path, ckpt, side, statedir, trace_out, timeout=600):
-    cmd = ['strace', '-f', '-o', trace_out, '-P', ckpt, '-P', ckpt + '.tmp'] + args + \
+def _strace(args, spec_path, ckpt, watch, side, statedir, trace_out, timeout=600):
+    cmd = ['strace', '-f', '-o', trace_out] + [x for w in watch for x in ('-P', w)] + args + \
           [env.PY, '-m', 'nmon.crash_child', spec_path, ckpt, side, statedir]
     return subprocess.run(cmd, capture_output=True, text=True, timeout=timeout, env=env.child_env(), cwd=env.VERIF)
 
@@ -121,7 +142,7 @@ def run_case(spec):
 
     def bad(key, what, **kw):
         if key not in [v['key'] for v in viols]:
-            viols.append(dict(key=key, what=what, config=spec['j'], **kw))
+            viols.append(dict(key=key, what=what, config=spec['j'], layout=conf.get('layout', 'plain'), **kw))
 
     with env.Scratch('nmon-c06') as scratch:
         sp = os.path.join(scratch, 'spec.json')
@@ -129,9 +150,9 @@ def run_case(spec):
         # ---------------- census
         cdir = os.path.join(scratch, 'census')
         os.makedirs(os.path.join(cdir, 'states'))
-        ckpt = os.path.join(cdir, 'ck.hdf5')
+        ckpt, watch = _layout(cdir, conf.get('layout', 'plain'))
         trace = os.path.join(cdir, 'trace.txt')
-        p = _strace(['-e', 'trace=' + ','.join(SYSCALLS)], sp, ckpt, os.path.join(cdir, 'side.log'),
+        p = _strace(['-e', 'trace=' + ','.join(SYSCALLS)], sp, ckpt, watch, os.path.join(cdir, 'side.log'),
                     os.path.join(cdir, 'states'), trace)
         begins, ends, done = _side(os.path.join(cdir, 'side.log'))
         if p.returncode != 0 or done is None or done[0] != '1':
@@ -155,7 +176,8 @@ def run_case(spec):
                 for n in {1, 2, c, max(c - 1, 1), (c + 1) // 2}:
                     chosen.add((sc, n))
             rest = [pt for pt in points if pt not in chosen]
-            for idx in rng.choice(len(rest), size=min(max(64 - len(chosen), 8), len(rest)), replace=False):
+            target = 64 if conf.get('layout', 'plain') == 'plain' else 48
+            for idx in rng.choice(len(rest), size=min(max(target - len(chosen), 8), len(rest)), replace=False):
                 chosen.add(rest[int(idx)])
             points = sorted(chosen, key=lambda t: (SYSCALLS.index(t[0]), t[1]))
         mine = points[spec['part']::spec['parts']]
@@ -166,8 +188,8 @@ def run_case(spec):
             kdir = os.path.join(scratch, 'kill')
             shutil.rmtree(kdir, ignore_errors=True)
             os.makedirs(os.path.join(kdir, 'states'))
-            ck = os.path.join(kdir, 'ck.hdf5')
-            p = _strace(['-e', 'trace=' + sc, '-e', 'inject=%s:signal=SIGKILL:when=%d' % (sc, n)], sp, ck,
+            ck, watch = _layout(kdir, conf.get('layout', 'plain'))
+            p = _strace(['-e', 'trace=' + sc, '-e', 'inject=%s:signal=SIGKILL:when=%d' % (sc, n)], sp, ck, watch,
                         os.path.join(kdir, 'side.log'), os.path.join(kdir, 'states'), '/dev/null')
             b, e, dn = _side(os.path.join(kdir, 'side.log'))
             if dn is not None:
@@ -242,7 +264,7 @@ def run_case(spec):
     nn = obs['kills_inside_write'] + obs['kills_inside_update']
     res = {'obs': obs, 'nontrivial': nn > 0, 'nontrivial_count': nn,
            'key': 'cfg%d-part%d' % (spec['j'], spec['part']),
-           'sample': {'config': spec['j'], 'syscall_counts': counts, 'points': mine[:6]}}
+           'sample': {'config': spec['j'], 'layout': conf.get('layout', 'plain'), 'syscall_counts': counts, 'points': mine[:6]}}
     if viols:
         res.update(status='violation', violations=viols)
     else:
